@@ -10,6 +10,7 @@ import re
 from .common import *
 from .c02 import mul_pair
 from .c03 import div_pair
+from .knuth import addback_pairs
 from .c10 import numeral
 
 HARNESS_BINS = ["c01", "c02", "c03", "c05", "c06", "c07", "c08", "c10", "c16"]
@@ -76,7 +77,10 @@ def gen(rng, tier):
                     if "mul" in op:
                         t, a, b = mul_pair(rng, w0, n0, s == "i")
                     elif "div" in op or "rem" in op:
-                        t, a, b = div_pair(rng, w0, n0, s == "i")
+                        # operands shaped for the digits of a RANDOM member of the group: a divisor that spans two
+                        # digits of one digit type is a single digit (or four) of another
+                        wk, nk = wn(rng.choice(group))
+                        t, a, b = div_pair(rng, wk, nk, s == "i")
                     else:
                         t, a, b = pair(rng, w0, n0)
                     reqs.append((op, f"{hx(a)} {hx(b)}", t))
@@ -93,6 +97,24 @@ def gen(rng, tier):
                 z = rng.choice([0, 1, (1 << W) - 1, 1 << (W - 1), (1 << (W - 1)) - 1, rng.randrange(1 << W)])
                 sgn = "-" if (s == "i" and rng.random() < 0.5) else ""
                 reqs.append(("from_str_radix", f"10 {(sgn + str(z)).encode().hex()}", "dec"))
+                # more division shapes per group (exact multiples, extreme quotient digits, Knuth add-back operands),
+                # each built for one member's digit size and run on all members (added after seeded change C16-r4m1)
+                for cfgk in group:
+                    wk, nk = wn(cfgk)
+                    for _k in range(3):
+                        t, a, b = div_pair(rng, wk, nk, s == "i")
+                        reqs.append((rng.choice(["checked_div", "checked_rem", "checked_div_euclid", "checked_rem_euclid"]), f"{hx(a)} {hx(b)}", t))
+                    if nk >= 2:
+                        d = rng.randrange(1 << wk, 1 << (wk * rng.randrange(2, nk + 1))) if nk > 2 else rng.randrange(1 << wk, 1 << (2 * wk))
+                        q = rng.randrange(1, max(2, (1 << W) // d))
+                        a, b = q * d, d
+                        if s == "i":
+                            a, b = a % (1 << (W - 1)), b % (1 << (W - 1)) or 1
+                        reqs.append((rng.choice(["checked_div", "checked_rem"]), f"{hx(a)} {hx(b)}", "exact-multiple"))
+                    if nk >= 3 and s == "u":
+                        for (u, v) in addback_pairs(rng, wk, nk, 1):
+                            reqs.append(("checked_div", f"{hx(u)} {hx(v)}", "knuth-addback"))
+                            reqs.append(("checked_rem", f"{hx(u)} {hx(v)}", "knuth-addback"))
                 for op, rest, t in reqs:
                     ids = []
                     for cfg in group:
